@@ -102,18 +102,31 @@ func (e *e3) wrapGuarded(cursor *ssa.Phi, amt ssa.Value, add *ssa.BinOp, b *ssa.
 			if !c.Pos {
 				op = negateOp(op)
 			}
-			isAmt := func(v ssa.Value) bool { return v == amt || (akey != "" && exprKey(v) == akey) }
+			// a value of a helper whose summary was injected counts as the argument bound to it here
+			bound := func(v ssa.Value) ssa.Value {
+				if pv, ok := v.(*ssa.Parameter); ok && pv.Parent() != b.Parent() {
+					if arg := boundArgument(pv, b.Parent()); arg != nil {
+						return arg
+					}
+				}
+				return v
+			}
+			isCursor := func(v ssa.Value) bool { return bound(v) == ssa.Value(cursor) }
+			isAmt := func(v ssa.Value) bool {
+				v = bound(v)
+				return v == amt || (akey != "" && exprKey(v) == akey)
+			}
 			isRemaining := func(v ssa.Value) bool { // K - cursor
 				s, ok := v.(*ssa.BinOp)
 				if !ok || s.Op != token.SUB {
 					return false
 				}
 				_, isK := s.X.(*ssa.Const)
-				return isK && s.Y == ssa.Value(cursor)
+				return isK && isCursor(s.Y)
 			}
 			isSum := func(v ssa.Value) bool {
 				s, ok := v.(*ssa.BinOp)
-				return ok && s.Op == token.ADD && ((s.X == ssa.Value(cursor) && isAmt(s.Y)) || (s.Y == ssa.Value(cursor) && isAmt(s.X)))
+				return ok && s.Op == token.ADD && ((isCursor(s.X) && isAmt(s.Y)) || (isCursor(s.Y) && isAmt(s.X)))
 			}
 			switch {
 			case isAmt(bo.X) && isRemaining(bo.Y) && (op == token.LEQ || op == token.LSS):
